@@ -15,7 +15,8 @@ Ops == {"quantise", "quantise_note_lengths", "normalise", "quantise_and_normalis
         "transpose", "transpose_wrap", "set_channel", "merge", "concatenate", "split_rejoin", "copy",
         "bar_construct", "bars_roundtrip", "bars_roundtrip_requantise", "composition_roundtrip", "token_roundtrip",
         "save_load", "quantise_helper_grid", "note_lengths_helper_grid", "token_roundtrip_plain",
-        "token_roundtrip_plain_ppqn48", "token_roundtrip_unfused_tail", "scale_identity"}
+        "token_roundtrip_plain_ppqn48", "token_roundtrip_unfused_tail", "scale_identity",
+        "load_coarse_file"}
 (* token_roundtrip_plain_ppqn48: a tokeniser built with an explicit integer resolution other than the library's and the
    default grids; token_roundtrip_unfused_tail: unfused running values, bar-by-bar calls with a carried state, only the
    tokens of the later calls are detokenised (the stream then starts without value / velocity / track tokens) *)
@@ -35,10 +36,10 @@ Do(op) == /\ Len(hist) < MaxLen
           /\ kinds' = Effect(kinds, op)
           /\ tokenKinds' = IF op \in Tokenising THEN tokenKinds \cup Effect(kinds, op) ELSE tokenKinds
           /\ hist' = Append(hist, op)
-DoSequenceOp == \E op \in Ops \ (BarBuilding \cup {"save_load"}) : Do(op)
+DoSequenceOp == \E op \in Ops \ (BarBuilding \cup {"save_load", "load_coarse_file"}) : Do(op)
 DoBarOp == \E op \in BarBuilding \ Tokenising : Do(op)
 DoTokenOp == \E op \in Tokenising : Do(op)
-DoFileOp == Do("save_load")
+DoFileOp == Do("save_load") \/ Do("load_coarse_file")
 Next == DoSequenceOp \/ DoBarOp \/ DoTokenOp \/ DoFileOp
 IntOnly == kinds \subseteq {"int"} /\ tokenKinds \subseteq {"int"}
 =============================================================================
